@@ -3,6 +3,7 @@
 From InToto.Model Require Import Base Json Rule Glob Rules Utf8 Match DirDigest Canon EntryVerify.
 From InToto.Model Require EntryRun.
 From InToto.Model Require Import EntryResolve.
+From InToto.Model Require EntryRecord.
 
 Definition s_ok : str := [111;107]%N.
 Definition jok (j : json) : json := JDict [(s_ok, j)].
@@ -119,6 +120,7 @@ Definition op_fnmatch : str := [102;110;109;97;116;99;104]%N.
 Definition run_op (op : str) (arg : json) : json :=
   match run_op_resolve op arg with Some j => j | None =>
   if eqs op op_verify then verify_op arg
+  else if EntryRecord.handles op then EntryRecord.run op arg
   else if eqs op op_canon then canon_op arg
   else if eqs op op_match_products then match_products_op arg
   else if eqs op op_dir_text then dir_text_op arg
